@@ -2,7 +2,7 @@
 # run EVERY quick check against each behaviour-preserving change under <dir>/*/patch.diff (no alarm is the expected
 # outcome): parallel, each worker from a private copy of the verification tree.  usage: tools/benign.sh <dir> [workers]
 SRC=${1:-/verif/benign}; N=${2:-8}
-ls -d $SRC/*/m1 > /tmp/benlist.$$
+ls -d $SRC/*/ > /tmp/benlist.$$
 for i in $(seq 0 $((N-1))); do
   (
     V=/tmp/vb-$$-$i; rm -rf $V; rsync -a --exclude .git /verif/ $V/
